@@ -777,4 +777,40 @@ theorem wordsFromB_sound : ∀ (k : Nat) (rs : List RegL), wordsFromB k rs = tru
     exact ⟨h.1.1.1.1, h.1.1.1.2, h.1.1.2, h.1.2, wordsFromB_sound (k + 1) rs h.2⟩
 
 
+/-! ## `find_reg` by name -/
+
+theorem findRegB_sound (d : LayoutD) (h : findRegB d = true) (i j : Nat) (r r' : RegD)
+    (hi : d.regs[i]? = some r) (hj : d.regs[j]? = some r') (hm : r'.name = r.name ∨ r'.uid = r.name) : j = i := by
+  simp only [findRegB, Bool.and_eq_true, beq_iff_eq, Bool.not_eq_true', List.contains_eq_mem, decide_eq_false_iff_not] at h
+  obtain ⟨⟨hnd, hne⟩, hand⟩ := h
+  have hnodup := nodupFastB_sound _ hnd
+  have hri : r ∈ d.regs := List.mem_of_getElem? hi
+  have hrj : r' ∈ d.regs := List.mem_of_getElem? hj
+  have same : r'.name = r.name → j = i := by
+    intro hn
+    obtain ⟨hi', hie⟩ := List.getElem?_eq_some_iff.1 hi
+    obtain ⟨hj', hje⟩ := List.getElem?_eq_some_iff.1 hj
+    have h1 : (d.regs.map (·.name))[i]'(by simpa using hi') = r.name := by simp [hie]
+    have h2 : (d.regs.map (·.name))[j]'(by simpa using hj') = r'.name := by simp [hje]
+    exact (List.getElem_inj hnodup).1 (by rw [h2, h1, hn])
+  rcases hm with hn | hu
+  · exact same hn
+  · by_cases hs : r'.uid = r'.name
+    · exact same (by rw [← hs, hu])
+    · exfalso
+      have hne' : r'.uid ≠ d.emptyName := by
+        intro he; apply hne; rw [← he, hu]; exact List.mem_map.2 ⟨r, hri, rfl⟩
+      have hin : r'.uid ∈ otherUids d := by
+        simp only [otherUids, List.mem_map, List.mem_filter, Bool.and_eq_true, bne_iff_ne, ne_eq]
+        exact ⟨r', ⟨hrj, hs, hne'⟩, rfl⟩
+      have hb1 : (orPow (d.regs.map (·.name))).testBit r.name = true := by
+        rw [testBit_orPow]; simpa using List.mem_map.2 ⟨r, hri, rfl⟩
+      have hb2 : (orPow (otherUids d)).testBit r.name = true := by
+        rw [testBit_orPow, ← hu]; simpa using hin
+      have : (orPow (d.regs.map (·.name)) &&& orPow (otherUids d)).testBit r.name = true := by
+        rw [Nat.testBit_and, hb1, hb2]; rfl
+      rw [hand] at this
+      simp at this
+
+
 end SpsdkVerif.CfgArea
